@@ -138,6 +138,10 @@ class VariablesCollector(ValidationVisitor):
             OrderedDict
         )  # type: VariableUsages
         self._fragment_fragments = DefaultOrderedDict(list)  # type: LMap[str]
+        # Every usage (a variable can be used at several, differently typed,
+        # positions), the maps above only keep one usage per variable name.
+        self._op_variable_usages = DefaultOrderedDict(list)
+        self._fragment_variable_usages = DefaultOrderedDict(list)
         self._in_var_def = False
 
     def enter_operation_definition(self, node):
@@ -180,11 +184,17 @@ class VariablesCollector(ValidationVisitor):
                 input_type,
                 input_value_def,
             )
+            self._op_variable_usages[self._op].append(
+                (var, (node, input_type, input_value_def))
+            )
         elif self._fragment is not None:
             self._fragment_variables[self._fragment][var] = (  # type: ignore
                 node,
                 input_type,
                 input_value_def,
+            )
+            self._fragment_variable_usages[self._fragment].append(
+                (var, (node, input_type, input_value_def))
             )
 
     def _flatten_fragments(self):
